@@ -164,7 +164,7 @@ class GenResult:
     trusted_scan: list     # occurrences of external_body / assume_specification / admit / assume
 
 class Extractor:
-    def __init__(self, repo, spec_dir, unit, usize_bytes=8, canary=False, only_props=None, force_external=None, target_endian='little'):
+    def __init__(self, repo, spec_dir, unit, usize_bytes=8, canary=False, only_props=None, force_external=None, target_endian='little', only_ensures=None):
         self.repo = repo
         self.spec = Spec(spec_dir)
         self.unit_name = unit
@@ -181,6 +181,7 @@ class Extractor:
         self.used_fn_specs = set()
         self.used_impl_specs = set()
         self.force_external = dict(force_external or {})   # (module, fn path) -> reason
+        self.only_ensures = dict(only_ensures or {})       # (module, fn path) -> label: emit only this postcondition of that fn (split query)
 
     # ---- helpers
     def rule(self, rid, n=1):
@@ -615,6 +616,8 @@ class Extractor:
                     lab = ' /*#%s*/' % c.label
                 sigtxt.append('\n            (%s)%s%s' % (c.text.strip(), sep, lab))
         emit_clauses('requires', req)
+        keep_ = self.only_ensures.get((module, path))
+        if keep_ is not None: ens = [c for c in ens if c.label == keep_]
         emit_clauses('ensures', ens)
         if sp.get('decreases'):
             sigtxt.append('\n        decreases %s' % sp['decreases'])
